@@ -298,10 +298,12 @@ def merge_states(c, a, b, base_pc_len):
 class NS:
     """namespace handed to spec lambdas: attributes are locals (wrapped)"""
 
-    def __init__(self, ex, st, extra=None):
+    def __init__(self, ex, st, extra=None, mode="verify", callcache=None):
         object.__setattr__(self, "_ex", ex)
         object.__setattr__(self, "_st", st)
         object.__setattr__(self, "_extra", extra or {})
+        object.__setattr__(self, "_mode", mode)
+        object.__setattr__(self, "_callcache", callcache if callcache is not None else {})
 
     def __getattr__(self, name):
         if name in self._extra:
@@ -322,22 +324,34 @@ class NS:
         return self._st.defined.get(name, True)
 
     def ghost(self, name, ty):
-        """explicit skolemisation of an existential in a postcondition: while the function itself is verified
-        this is the ghost local `name` (the witness); at a call site it is a fresh symbolic value"""
+        """logical witness variable of a contract (explicit skolemisation of an existential).
+        While the function itself is verified: the ghost local `name` if there is one, else one fixed witness per
+        function (an existential in the REQUIRES is assumed, one in the ENSURES must be established for the ghost local).
+        At a call site: a requires-side witness is looked up in the caller (ghost local, or the caller's current
+        witness of that name - e.g. obtained from an earlier callee's postcondition); an ensures-side witness is fresh
+        per call and becomes the caller's current witness of that name (like a ghost variable havocked by the call)."""
+        mode = self._mode
+        ex = self._ex
+        if mode == "call_post":
+            if name not in self._callcache:
+                self._callcache[name] = ex.fresh_param(self._st, "wit." + name, ty)
+                ex.vghost[name] = self._callcache[name]
+            return self._callcache[name]
         if name in self._st.locals:
-            return wrap(self._ex, self._st, self._st.locals[name])
-        if name not in self._extra:
-            self._extra[name] = self._ex.fresh_param(self._st, "wit." + name, ty)
-        return self._extra[name]
+            return wrap(ex, self._st, self._st.locals[name])
+        if name not in ex.vghost:
+            ex.vghost[name] = ex.fresh_param(self._st, "wit." + name, ty)
+        return ex.vghost[name]
 
     def ghostfn(self, name, argsorts, ressort):
         """uninterpreted ghost FUNCTION of a contract (e.g. a partial-sum function defined by recursion in the
         contract's `defs`): one fixed symbol while the function itself is verified, a fresh symbol per call site"""
         key = "fn:" + name
-        if key not in self._extra:
-            tag = name if self._ex.in_verify_ns(self) else "%s!%d" % (name, next(_ids))
-            self._extra[key] = z3.Function(tag, *[sort_of(a) for a in argsorts], sort_of(ressort))
-        return self._extra[key]
+        cache = self._callcache if self._mode != "verify" else self._ex.vghost
+        if key not in cache:
+            tag = name if self._mode == "verify" else "%s!%d" % (name, next(_ids))
+            cache[key] = z3.Function(tag, *[sort_of(a) for a in argsorts], sort_of(ressort))
+        return cache[key]
 
     def has(self, name):
         return name in self._st.locals
@@ -579,6 +593,7 @@ class Exec:
         self.defs = []
         self._verify_ns = set()
         self._verify_keep = []
+        self.vghost = {}
 
     # ---------------- object allocation from schemas
 
@@ -702,6 +717,11 @@ class Exec:
         # parameters
         for pname, ty in c.params.items():
             st.locals[pname] = self.fresh_param(st, pname, ty)
+            pv = st.locals[pname]
+            if isinstance(pv, SList):
+                st.assume(pv.length >= 0)
+            elif isinstance(pv, Opt):
+                st.assume(pv.value.length >= 0)
         for k, v in self.config.items():
             # configuration constraints, e.g. policy fixed to 'min'
             path = k.split(".")
@@ -1268,6 +1288,13 @@ class Exec:
         return n
 
     def havoc(self, st, mods_locals, mods_heap):
+        self._havoc(st, mods_locals, mods_heap)
+        # list lengths are never negative (Python / numpy)
+        for v in list(st.locals.values()):
+            if isinstance(v, SList) and L.is_z3(v.length):
+                st.assume(v.length >= 0)
+
+    def _havoc(self, st, mods_locals, mods_heap):
         for nm in sorted(mods_locals):
             cur = st.locals.get(nm, UNBOUND)
             if cur is UNBOUND:
@@ -1503,6 +1530,10 @@ class Exec:
 
     def assign(self, st, tgt, val, stmt):
         if isinstance(tgt, ast.Name):
+            ty = self.contract.locals_types.get(tgt.id) if not self.cur_fn_stack else None
+            if ty and ty.startswith("list[") and isinstance(val, SList) and isinstance(val.length, int) \
+                    and val.length == 0 and val.elem != ty[5:-1]:
+                val = SList(fresh("list", z3.ArraySort(INT, sort_of(ty[5:-1]))), 0, ty[5:-1])   # typed empty list
             st.locals[tgt.id] = val
             st.defined.pop(tgt.id, None)
             return
@@ -1653,6 +1684,11 @@ class Exec:
                 return True
         return False
 
+    def expr_Slice(self, st, e):
+        if e.lower is None and e.upper is None and e.step is None:
+            return ("slice",)
+        raise Unsupported("slice with bounds")
+
     def expr_Tuple(self, st, e):
         return tuple(self.eval(st, x) for x in e.elts)
 
@@ -1773,6 +1809,9 @@ class Exec:
     def expr_Subscript(self, st, e):
         base = self.eval(st, e.value)
         idx = self.eval(st, e.slice)
+        if isinstance(base, SList) and isinstance(idx, tuple) and len(idx) == 2 and idx[1] == ("slice",):
+            self.check_index(st, base, idx[0], e)      # X[j, :] : row j of a 2-D array modelled as a list of rows
+            return base[idx[0]]
         if isinstance(base, SList):
             self.check_index(st, base, idx, e)
             return base[idx]
@@ -2141,6 +2180,13 @@ class Exec:
     def list_method(self, st, f, base, e):
         args = [self.eval(st, a) for a in e.args]
         if f.attr == "append":
+            val0 = args[0]
+            if isinstance(base.length, int) and base.length == 0 and L.is_z3(val0) and val0.sort() != sort_of(base.elem):
+                # first append to a literal [] fixes the element sort
+                el = {FEAT: "feat", REAL: "real", INT: "int", BOOL: "bool"}.get(val0.sort())
+                if el is None:
+                    raise Unsupported("append of %s" % val0.sort())
+                base = SList(fresh("list", z3.ArraySort(INT, val0.sort())), 0, el)
             new = SList(z3.Store(base.arr, L.lift(base.length, INT), L.lift(args[0], sort_of(base.elem))),
                         base.length + 1, base.elem)
         elif f.attr == "insert" and isinstance(args[0], int) and args[0] == 0:
@@ -2234,8 +2280,9 @@ class Exec:
         short = q.split(".")[-2] + "." + q.split(".")[-1] if recv is not None else q.split(".")[-1]
         anchor = "%s@L%d" % (short, self.rel_line(node))
         pre = st.copy()
-        pre_ns = NS(self, pre, {k: wrap(self, pre, v) for k, v in binding.items()})
-        call_ns = NS(self, st, {k: wrap(self, st, v) for k, v in binding.items()})
+        cc = {}
+        pre_ns = NS(self, pre, {k: wrap(self, pre, v) for k, v in binding.items()}, "call_pre", cc)
+        call_ns = NS(self, st, {k: wrap(self, st, v) for k, v in binding.items()}, "call_pre", cc)
         if not ctor or True:
             for name, term in c.requires(call_ns):
                 self.oblige(st, "call", anchor, name, term, node)
@@ -2244,12 +2291,12 @@ class Exec:
             d_old = self.contract.decreases(self.ns(self.old))
             self.oblige(st, "call", anchor, "decreases", L.conj(L.ge(d_old, 0), L.lt(d_new, d_old)), node)
         pre = st.copy()
-        pre_ns = NS(self, pre, {k: wrap(self, pre, v) for k, v in binding.items()})
+        pre_ns = NS(self, pre, {k: wrap(self, pre, v) for k, v in binding.items()}, "call_pre", cc)
         mods = self.modset_of_contract(c, binding, st)
         self.havoc(st, set(), {(oid, f, "struct") for (oid, f) in mods})
         result = None
         rty = c.params.get("return")
-        post_ns = NS(self, st, {k: wrap(self, st, v) for k, v in binding.items()})
+        post_ns = NS(self, st, {k: wrap(self, st, v) for k, v in binding.items()}, "call_post", cc)
         if rty:
             result = self.fresh_param(st, "ret." + short, rty)
         for name, term in c.ensures(post_ns, pre_ns, wrap(self, st, result)):
